@@ -323,7 +323,7 @@ def independent_stream(p, text, m, b):
     Stops like any LALR parse: at the first lexer error, feed error, or at the end of the window."""
     from lark.utils import TextSlice
     from lark.exceptions import UnexpectedInput
-    from lark.lexer import BasicLexer
+    from lark.lexer import BasicLexer, Token
     raw, toks = [], []
     orig_match = BasicLexer.match
 
@@ -335,21 +335,25 @@ def independent_stream(p, text, m, b):
     BasicLexer.match = match
     try:
         ip = p.parse_interactive(TextSlice(text, m, b))
+        ip.parser_state.parse_conf.callbacks = {}
         try:
             for t in ip.lexer_thread.lex(ip.parser_state):
-                n_raw = len(raw)
                 rec = dict(type=t.type, s=t.start_pos, e=t.end_pos, ok=False, choice=False, trial=False)
                 toks.append(rec)
                 ip.feed_token(t)
                 rec['ok'] = True
-                if '$END' in ip.choices():
+                # the $END trial is made on a parser fed from scratch (no use of ParserState.copy)
+                ip2 = p.parse_interactive('')
+                ip2.parser_state.parse_conf.callbacks = {}
+                for f in toks:
+                    ip2.feed_token(Token(f['type'], ''))
+                if '$END' in ip2.choices():
                     rec['choice'] = True
                     try:
-                        ip.copy(deepcopy_values=False).feed_eof(t)
+                        ip2.feed_eof()
                         rec['trial'] = True
                     except UnexpectedInput:
                         pass
-                del raw[n_raw:]     # matches made by the trial / error paths are not part of the stream
         except UnexpectedInput:
             pass
     finally:
@@ -604,6 +608,8 @@ def run_case(cfg, text, a, b, whole, restrict, stats=None):
         terr = None
     except ValueError as e:
         tabs, terr = None, str(e)
+    except Exception as e:   # noqa - the independent driver uses lark's lexer and parser; a defect there can break it
+        tabs, terr = None, 'independent oracle driver raised %s: %s' % (type(e).__name__, str(e)[:200])
     return obs, tabs, terr, verdict
 
 
@@ -623,7 +629,7 @@ EXOTIC = [
 
 def correspond(ctx):
     rng = ctx.rng
-    ngram = ctx.scale(220, 3000) * (3 if ctx.widen else 1)
+    ngram = ctx.scale(160, 2000) * (3 if ctx.widen else 1)
     cases, meta = [], []
     stats = {}
     built = 0
